@@ -45,6 +45,7 @@ typedef struct ns_cfg {
 	ns_relay relay;
 	int lat_up, lat_down;            /* one-way latency in microseconds */
 	int nclients;
+	int succession;                  /* client A works for a while, dies silently, and client B logs in 65 s later (takes over A's slot and address) */
 	int netmask, check_ip;
 	int warm;                        /* warm-up prefix id */
 	const char *topdomain, *password;
@@ -317,8 +318,8 @@ static int ns_proc_of_tunip(uint32_t ip_netorder)
 	/* tunnel addresses: server 10.0.0.1, clients get 10.0.0.2, 10.0.0.3 in login order */
 	uint32_t a = ntohl(ip_netorder);
 	if (a == 0x0A000001) return 0;
-	if (a == 0x0A000002) return 1;
-	if (a == 0x0A000003) return 2;
+	if (a == 0x0A000002) return NC.succession ? 2 : 1;
+	if (a == 0x0A000003) return NC.succession ? -1 : 2;
 	return -1;
 }
 
@@ -433,6 +434,7 @@ static void ns_defaults(ns_cfg *c)
 }
 
 /* boots the world and runs the real handshake(s) on a clean path; returns 0 if all clients are tunnelling */
+static int ns_mkpkt(unsigned char *p, int iplen, uint32_t dst_hostorder, int tag, int compressible);
 static int ns_boot(const ns_cfg *cfg, int64_t hs_deadline)
 {
 	NC = *cfg;
@@ -460,6 +462,20 @@ static int ns_boot(const ns_cfg *cfg, int64_t hs_deadline)
 	while (ns_hs_result[1] == -99 && W.now < hs_deadline && vw_alive(1) && vw_step()) ;
 	if (ns_hs_result[1] != 0) return -1;
 #ifdef NS_TWO_CLIENTS
+	if (NC.succession) {
+		/* A carries some traffic and is cut off in the middle of a multi-fragment packet in each direction */
+		unsigned char p[3000];
+		int n = ns_mkpkt(p, 1500, 0x0A000002, 900, 0); vw_tun_offer_at(ns_srv_tun, W.now + 20000, p, n, 900);
+		n = ns_mkpkt(p, 700, 0x0A000001, 901, 0); vw_tun_offer_at(ns_cli_tun[1], W.now + 21000, p, n, 901);
+		n = ns_mkpkt(p, 60, 0x0A000002, 902, 0); vw_tun_offer_at(ns_srv_tun, W.now + 22000, p, n, 902);
+		int64_t until = W.now + 20000 + NC.lat_up * 3 + NC.lat_down * 2 + 1500;
+		while (vw_next_time() != VW_NEVER && vw_next_time() <= until && vw_step()) ;
+		vw_kill(1);
+		until = W.now + 65 * 1000000LL;
+		while (vw_next_time() != VW_NEVER && vw_next_time() <= until && vw_step()) ;
+		if (W.now < until) vw_run_until(until);
+		ns_nrd = ns_nwr = 0;          /* A's packets are history: the monitors judge the second session */
+	}
 	if (NC.nclients > 1) {
 		ns_cli_sock[2] = vw_sock_open(2, NS_CLI_FD + 10, "198.51.100.8", 40001);
 		ns_cli_tun[2] = vw_tun_open(2, NS_CLI_TUN + 10);
